@@ -201,6 +201,8 @@ def main(argv=None):
             check, "crashes=%d evaluations=%d floor=%d %s" % (
                 len(m["crashes"]), m["evaluations"], floor,
                 (m["crashes"][0]["error"] or "")[-400:].replace("\n", " | ") if m["crashes"] else "")))
+    if m["crashes"] and rc == 1:
+        lines.append("note: %d worker(s) crashed: %s" % (len(m["crashes"]), (m["crashes"][0]["error"] or "")[-300:].replace("\n", " | ")))
     required = getattr(mod, "REQUIRED_MONITORS", [])
     for name in required:
         if rc == 0 and m["monitors"].get(name, 0) == 0:
